@@ -86,3 +86,11 @@ Print Assumptions C20_done_flag_sound.
 (* Hull coverage, the count 2n-2-h and fast = slow as sets are NOT proved (C20 partial): they are
    decided on generated point sets by exact rational oracles, and the whole Bowyer-Watson run of
    the Go code is reproduced triangle for triangle by the Gallina model Algo/Delaunay.v. *)
+
+(* the super triangle strictly contains every vertex of a point set with positive extent *)
+Theorem C20_supertriangle_contains : forall vs : list (V2 ROps),
+  (exists u w, In u vs /\ In w vs /\ (vx u <> vx w \/ vy u <> vy w)) ->
+  let '(p0, p1, p2) := @super_triangle ROps vs in
+  forall v, In v vs -> left_of p0 p2 v /\ left_of p2 p1 v /\ left_of p1 p0 v.
+Proof. exact supertriangle_contains. Qed.
+Print Assumptions C20_supertriangle_contains.
